@@ -52,6 +52,8 @@ FAULTS = {
     'denylisted-parameter': (['c16d.secret = 1'], (ValueError,), True),
     'bad-include': (["include '/nonexistent/c16_missing_file.gin'"], (IOError,), True),
     'bad-import': (['import c16_missing_module_xyz'], (ImportError,), True),
+    # the imported module is there, but a module IT imports is not: the caller's `except ModuleNotFoundError` still applies
+    'import-nested-missing-module': (['import vfc16_nested'], (ModuleNotFoundError,), True),
     'tokenizer-fault-next-statement': (["'unterminated string at the start of a statement"], (SyntaxError, tokenize.TokenError), False),
     # a statement whose own work fails with a file-system error class (the import opens a data file that is not there / not readable)
     'import-raises-FileNotFoundError': (['import vfc16_fnf'], (FileNotFoundError,), True),
@@ -92,8 +94,8 @@ PAD_BYTES = io.DEFAULT_BUFFER_SIZE + 256
 # Ways to drive the faulty parse (entry point / shape of the input), states it starts from, what is tried afterwards.
 ENTRIES = ('plain', 'plain', 'plain', 'list-or-filelike', 'files-and-bindings')
 # skip_unknown=True turns these kinds into non-errors (or leaves open when the error is raised): never combined
-SKIP_TRUE_EXCLUDED = ('unknown-configurable', 'unknown-block-header', 'bad-import', 'unknown-reference', 'member-unknown-reference')
-SKIP_LIST_EXCLUDED = ('bad-import',)
+SKIP_TRUE_EXCLUDED = ('unknown-configurable', 'unknown-block-header', 'bad-import', 'import-nested-missing-module', 'unknown-reference', 'member-unknown-reference')
+SKIP_LIST_EXCLUDED = ('bad-import', 'import-nested-missing-module')
 PRE_LINES = ["c16f.x = 'pre'", "sc/c16g.y = 'pre'", "c16mac = 'pre'"]
 PRE_KEYS = [('', 'c16f', 'x'), ('sc', 'c16g', 'y'), ('c16mac', 'gin.macro', 'value')]
 PRE_LINES_DYN = ["vfc16_dyn.g.x = 'pre'"]
@@ -130,6 +132,14 @@ class ReaderFault(OSError):
   pass
 
 
+
+def _lines(text, keepends=False):
+  """Lines as files and tokenize see them: broken at '\\n' only (str.splitlines also breaks at form feeds, separators, NEL...)."""
+  import io
+  ls = io.StringIO(text).readlines()
+  return ls if keepends else [l[:-1] if l.endswith('\n') else l for l in ls]
+
+
 def setup(ctx):
   import gin
   for name, deny in (('c16f', None), ('c16g', None), ('c16d', ['secret'])):
@@ -146,7 +156,7 @@ def setup(ctx):
   import sys
   os.makedirs(os.path.join(_S['root'], 'py'))
   for mod, body in (('vfc16_fnf', "raise FileNotFoundError(2, 'No such file or directory', 'weights.bin')"), ('vfc16_perm', "raise PermissionError(13, 'Permission denied', 'secret.bin')"),
-                    ('vfc16_exit', 'import sys\nsys.exit(3)'), ('vfc16_kbd', 'raise KeyboardInterrupt()')):
+                    ('vfc16_exit', 'import sys\nsys.exit(3)'), ('vfc16_nested', 'import c16_dependency_that_is_not_installed'), ('vfc16_kbd', 'raise KeyboardInterrupt()')):
     open(os.path.join(_S['root'], 'py', mod + '.py'), 'w').write(body + '\n')
   open(os.path.join(_S['root'], 'py', 'vfc16_dyn.py'), 'w').write(
       'def g(x=0, y=0, z=0, secret=0):\n  return (x, y, z)\n\n\ndef h(x=0, y=0, z=0, secret=0):\n  return (x, y, z)\n')
@@ -334,7 +344,8 @@ class Rendered:
         lines.append("include '%s'" % (self.relpath(str(it[1])) if self.relinc else self.path(str(it[1]))))
         atoms.append((idx, 'include', len(lines), len(lines), str(it[1])))
       elif k == 'comment':
-        lines.append('# a comment line: c16f.x = [')
+        # (some comments end in a character that str.splitlines() - but no file, and not Python's tokenizer - takes for a line break)
+        lines.append('# a comment line: c16f.x = [' + ('', ' \x0c', '', ' \x1c', ' \x0b', '', ' \x1d\x1e')[(idx + len(lines)) % 7])
       else:
         lines.append('')
     if fault and fault['where'] == ('item', fid, len(f['items'])):
@@ -480,7 +491,7 @@ def choose_mode(rng, case, where, kind, has_includes):
 
 def read_provenance(text):
   """{binding key as printed: 'src:line' from the '# Set in' comment directly above the binding's first line, or None}."""
-  lines = text.splitlines()
+  lines = _lines(text)
   seen = {}
   for i, l in enumerate(lines):
     m = re.match(r'^([\w./]+) = ', l)
@@ -793,7 +804,7 @@ def one_fault(ctx, case, base, where, cls, depth, kind, gin, gc, mode):
 
     class FailingFile:
       def __init__(self):
-        self.lines = text.splitlines(True)
+        self.lines = _lines(text, True)
         self.i = 0
         self.name = target
 
@@ -1034,7 +1045,7 @@ def one_fault(ctx, case, base, where, cls, depth, kind, gin, gc, mode):
     ctx.count('messages_checked')
     if isinstance(exc, SyntaxError):
       ln = exc.lineno
-      last = len(r.texts[ffid].splitlines()) + 1
+      last = len(_lines(r.texts[ffid])) + 1
       hi = last if kind in ('unbalanced-open', 'tokenizer-fault-next-statement') else fend
       ctx.check(ln is not None and fstart <= ln <= hi, 'syntax-error-line-outside-statement',
                 '%s: SyntaxError.lineno=%r, statement spans lines %d-%d' % (label, ln, fstart, hi))
@@ -1131,7 +1142,7 @@ def run_provenance(ctx, case):
           values[k] = repr(it[4])
         setter[k] = '%s:%d' % (src, start)
     text = gin.config_str(show_provenance=True)
-    lines = text.splitlines()
+    lines = _lines(text)
     bindings, _, _, order = snap.parse_text(text)
     # map each binding statement (in order) to the comment line directly above its first line
     seen = {}
